@@ -193,10 +193,15 @@ Json gen_cmds(sim::Rng& rng, int maxn, u64& tag, long size_cap)
 {
     Json cmds = Json::array();
     int n = static_cast<int>(rng.range(1, maxn));
+    // now and then a long run of small writes on one connection: more entries queued at once than any batch size
+    const bool many = maxn >= 5 && rng.chance(0.04);
+    if (many) n = static_cast<int>(70 + rng.below(90));
     for (int i = 0; i < n; ++i) {
         Json c = Json::object();
         long sz = kSizes[rng.below(sizeof kSizes / sizeof kSizes[0])];
+
         if (rng.chance(0.3)) sz = static_cast<long>(rng.below(static_cast<u64>(size_cap) + 1));
+        if (many) sz = static_cast<long>(rng.below(rng.chance(0.9) ? 96 : 3000));
         if (sz > size_cap) sz = size_cap;
         if (sz > 0 && sz < 8) sz = 8;
         c["size"] = sz;
@@ -204,6 +209,10 @@ Json gen_cmds(sim::Rng& rng, int maxn, u64& tag, long size_cap)
         c["file"] = sz > 0 && rng.chance(0.2);
         c["app"] = rng.chance(0.3);
         c["newline_gap_us"] = rng.chance(0.6) ? 0 : static_cast<long>(rng.below(2000)); // 0: commands travel in one segment
+        if (many) {
+            c["file"] = sz > 0 && rng.chance(0.03);
+            c["newline_gap_us"] = rng.chance(0.9) ? 0 : static_cast<long>(rng.below(300));
+        }
         cmds.push(c);
     }
     return cmds;
@@ -400,6 +409,7 @@ void run(const Json& plan)
     std::vector<std::string> files;
     for (size_t i = 0; i < conns.size(); ++i) {
         const Json& cmds = conns.at(i).get("cmds");
+        if (cmds.size() >= 70) r.probe("many-small-writes-on-one-connection");
         for (size_t k = 0; k < cmds.size(); ++k) {
             if (!cmds.at(k).flag("file")) continue;
             u64 tag = static_cast<u64>(cmds.at(k).num("tag"));
